@@ -255,7 +255,9 @@ class SendConnectionInit(_Sender):
 
 
 class SendSubscribe(_Sender):
-    """statement: `exactly one subscribe carrying query, operationName and the serialised variables`"""
+    """statement: `exactly one subscribe carrying query, operationName and the serialised variables`
+    (C03 too: the variables of a subscription are converted like those of every other operation)"""
+    props = ("C13", "C03")
 
     def setup(self, E):
         kw = dict(websocket=Obj(F.FakeWS, {}), operation_id=E.sym("operation_id", Str), query=E.sym("query", Str),
